@@ -326,7 +326,7 @@ def stream_twin(knobs, opts, pieces):
     """Stream twin: a new simulated process, one FileAnonymizer, anonymize_io over in-memory streams
     fed exactly `pieces` (list of text pieces, in processing order).  Returns list of output texts
     (None where the twin raised)."""
-    p = SimProcess(knobs)
+    p = SimProcess(dict(knobs or {}, log_level=None))
     outs = []
     with p:
         fa = p.af.FileAnonymizer(**fa_kwargs(opts))
